@@ -78,6 +78,7 @@ package logqlengine
 
 // A stage may rewrite labels; nothing else of the caller's state.
 //@ iface Processor.Process
+//@   requires labels.labels != nil
 //@   modifies labels.labels[*]
 
 //@ func (*nopProcessor).Process
@@ -95,6 +96,7 @@ package logqlengine
 //@   ensures[missing-is-empty] keep == lf.matcher.Match(ite(has(set.labels, lf.name), set.labels[lf.name].AsString(), ""))
 
 //@ func (*AndLabelMatcher).Process
+//@   requires set.labels != nil
 //@   capture l = call(m.Left.Process, 0)
 //@   capture r = call(m.Right.Process, 0)
 //@   modifies set.labels[*]
@@ -105,6 +107,7 @@ package logqlengine
 //@   ensures[line]  (l_r1 ==> l_r0 == line) && (r_called && r_r1 ==> r_r0 == r_a1) ==> (keep ==> ret0 == line)
 
 //@ func (*OrLabelMatcher).Process
+//@   requires set.labels != nil
 //@   capture l = call(m.Left.Process, 0)
 //@   capture r = call(m.Right.Process, 0)
 //@   modifies set.labels[*]
@@ -115,6 +118,7 @@ package logqlengine
 //@   ensures[line]  (l_r1 ==> l_r0 == line) && (r_called && r_r1 ==> r_r0 == r_a1) ==> (keep ==> ret0 == line)
 
 //@ func (*Pipeline).Process
+//@   requires attrs.labels != nil
 //@   capture c = call(s.Process, 0)
 //@   modifies attrs.labels[*]
 //@   loop 0 modifies attrs.labels[*]
@@ -218,6 +222,7 @@ package logqlengine
 //@ func (*LabelSet).SetFromRecord
 //@   trusted
 //@   modifies l.labels, l.labels[*]
+//@   ensures l.labels != nil
 
 //@ func (*entryIterator).Next
 //@   capture n  = call(i.iter.Next, 0)
@@ -311,3 +316,50 @@ package logqlengine
 // terminated (label names contain no NUL), the value is preceded by its length.
 //@ func (*aggregatedLabels).Key$1
 //@   ensures[framed-pair] digestStream(h) == old(digestStream(h)) + k + "\x00" + strconv.Itoa(len(v)) + "\x00" + v
+
+// ---- C07: rewriting stages
+
+//@ scope line_format.go
+//@ ghost func bufferContent(b *bytes.Buffer) string
+
+//@ func (*RenameLabel).Process
+//@   logical other logql.Label
+//@   modifies set.labels[*]
+//@   ensures[never-drops] keep && ret0 == line
+//@   loop 0 modifies set.labels[*]
+//@   loop 0 invariant rangeindex+1 <= len(rl.pairs)
+//@   loop 0 body_ensures[current-pair] same(p, rl.pairs[rangeindex])
+//@   loop 0 body_ensures[moves-value-to-target] head(has(set.labels, rl.pairs[rangeindex+1].Label)) && p.To != p.Label ==> has(set.labels, p.To) && same(set.labels[p.To], head(set.labels[rl.pairs[rangeindex+1].Label])) && !has(set.labels, p.Label)
+//@   loop 0 body_ensures[absent-source-is-a-no-op] !head(has(set.labels, rl.pairs[rangeindex+1].Label)) ==> has(set.labels, other) == head(has(set.labels, other)) && same(set.labels[other], head(set.labels[other]))
+//@   loop 0 body_ensures[other-labels-untouched] other != p.Label && other != p.To ==> has(set.labels, other) == head(has(set.labels, other)) && same(set.labels[other], head(set.labels[other]))
+
+//@ func (*LabelSet).AsMap
+//@   trusted
+//@   modifies nothing
+
+//@ func (*LineFormat).Process
+//@   requires set.labels != nil
+//@   capture ex = call(lf.tmpl.Execute, 0)
+//@   ensures[never-drops] keep
+//@   ensures[binds-line-and-timestamp] lf.ts == ts && lf.line == line
+//@   ensures[failing-template-keeps-line-and-flags] ex_called && (ex_r0 != nil ==> ret0 == line && has(set.labels, logql.ErrorLabel))
+//@   ensures[output-is-the-expansion-alone] ex_r0 == nil ==> ret0 == bufferContent(lf.buf) && ex_recv == lf.tmpl && as[*bytes.Buffer](ex_a0) == lf.buf
+
+//@ func (*DropLabels).dropPair
+//@   loop 0 invariant rangeindex+1 <= len(ms)
+//@   loop 0 invariant forall(0, rangeindex+1, func(j int) bool { return ms[j].Match(val.AsString()) })
+//@   ensures[named-without-matchers] has(k.drop, label) && !has(k.matchers, label) ==> ret0
+//@   ensures[not-mentioned] !has(k.drop, label) && !has(k.matchers, label) ==> !ret0
+//@   ensures[single-matcher-decides] !has(k.drop, label) && has(k.matchers, label) && len(k.matchers[label]) == 1 ==> ret0 == k.matchers[label][0].Match(val.AsString())
+
+//@ func (*KeepLabels).keepPair
+//@   loop 0 invariant rangeindex+1 <= len(ms)
+//@   loop 0 invariant forall(0, rangeindex+1, func(j int) bool { return ms[j].Match(val.AsString()) })
+//@   ensures[named-without-matchers] has(k.keep, label) && !has(k.matchers, label) ==> ret0
+//@   ensures[not-mentioned] !has(k.keep, label) && !has(k.matchers, label) ==> !ret0
+//@   ensures[single-matcher-decides] !has(k.keep, label) && has(k.matchers, label) && len(k.matchers[label]) == 1 ==> ret0 == k.matchers[label][0].Match(val.AsString())
+
+//@ func (*Decolorize).Process
+//@   modifies nothing
+//@   ensures[never-drops] ret1
+//@   ensures[strips-ansi-only] ret0 == ansiRegex.ReplaceAllString(line, "")
